@@ -7,7 +7,6 @@ import (
 	"go/ast"
 	"go/token"
 	"go/types"
-	"regexp"
 	"sort"
 	"strings"
 
@@ -224,11 +223,20 @@ func ruleCodecSym(c *RC) *RuleResult {
 	r.Sites++
 	md := c.messageDecoder()
 	derived := false
-	for _, mem := range c.clusterFns(md) {
-		ast.Inspect(mem.Decl.Body, func(n ast.Node) bool {
-			if as, ok := n.(*ast.AssignStmt); ok && len(as.Lhs) == 1 {
-				if sel, ok := as.Lhs[0].(*ast.SelectorExpr); ok && sel.Sel.Name == "newViewNumber" {
-					if be, ok := as.Rhs[0].(*ast.BinaryExpr); ok && be.Op == token.ADD {
+	for _, body := range c.decoderScope(md) {
+		ast.Inspect(body, func(n ast.Node) bool {
+			switch x := n.(type) {
+			case *ast.AssignStmt:
+				if len(x.Lhs) == 1 {
+					if sel, ok := x.Lhs[0].(*ast.SelectorExpr); ok && sel.Sel.Name == "newViewNumber" {
+						if be, ok := ast.Unparen(x.Rhs[0]).(*ast.BinaryExpr); ok && be.Op == token.ADD {
+							derived = true
+						}
+					}
+				}
+			case *ast.KeyValueExpr:
+				if id, ok := x.Key.(*ast.Ident); ok && id.Name == "newViewNumber" {
+					if be, ok := ast.Unparen(x.Value).(*ast.BinaryExpr); ok && be.Op == token.ADD {
 						derived = true
 					}
 				}
@@ -373,9 +381,11 @@ func ruleDecodeErr(c *RC) *RuleResult {
 	r.Sites++
 	md := c.messageDecoder()
 	okDefault := false
+	kindSwitch := false
 	for _, mem := range c.clusterFns(md) {
 		ast.Inspect(mem.Decl.Body, func(n ast.Node) bool {
 			if sw, ok := n.(*ast.SwitchStmt); ok {
+				kindSwitch = true
 				for _, cl := range sw.Body.List {
 					cc := cl.(*ast.CaseClause)
 					if cc.List == nil {
@@ -392,6 +402,32 @@ func ruleDecodeErr(c *RC) *RuleResult {
 			}
 			return true
 		})
+	}
+	if !kindSwitch && md != nil {
+		// no switch over the kinds (a table of constructors, a chain of ifs): on every successful path of the decoder
+		// the body has been given a value
+		body := ""
+		if st := c.Prog.Structs["internal/consensus:"+md.Recv]; st != nil {
+			for i := 0; i < st.NumFields(); i++ {
+				if it, ok := st.Field(i).Type().Underlying().(*types.Interface); ok && it.NumMethods() == 0 {
+					body = "recv." + st.Field(i).Name()
+				}
+			}
+		}
+		n := 0
+		okDefault = body != ""
+		for _, e := range c.exitsOf(md) {
+			if failedExit(e) {
+				continue
+			}
+			n++
+			if e.Killed[body] == 0 {
+				okDefault = false
+			}
+		}
+		if n == 0 {
+			okDefault = false
+		}
 	}
 	if okDefault {
 		r.ok("message.DecodeBinary rejects unknown kinds")
@@ -727,9 +763,28 @@ func ruleHashInput(c *RC) *RuleResult {
 	}
 	// encodes: fn runs EncodeBinary of its receiver, directly or through a helper that invokes the method on the
 	// parameter the receiver is passed as
-	encodes := func(fn *FuncInfo, callee string) bool {
+	var encodesVia func(fn *FuncInfo, callee string, depth int) bool
+	encodes := func(fn *FuncInfo, callee string) bool { return encodesVia(fn, callee, 0) }
+	encodesVia = func(fn *FuncInfo, callee string, depth int) bool {
 		if calls(fn, callee) {
 			return true
+		}
+		// a method of the receiver or of a part of it ("b.base.hashData()") that does the encoding
+		if depth < 3 {
+			for _, s := range c.A.FnSites[fn] {
+				if s.Kind != "call" || s.Target == nil || s.Target == fn || s.Target.Pkg.PkgPath != consPath || s.Target.RecvVar == nil {
+					continue
+				}
+				onRecv := false
+				for _, sn := range s.Snaps {
+					if sn.Recv != nil && (sn.Recv == rootRecv || sn.Recv.S == rootRecv.S || strings.HasPrefix(sn.Recv.S, rootRecv.S+".") || sn.Recv.S == "recv" || strings.HasPrefix(sn.Recv.S, "recv.")) {
+						onRecv = true
+					}
+				}
+				if onRecv && encodesVia(s.Target, callee, depth+1) {
+					return true
+				}
+			}
 		}
 		for _, s := range c.A.FnSites[fn] {
 			if s.Kind != "call" || s.Target == nil || s.Target.Pkg.PkgPath != consPath {
@@ -962,47 +1017,14 @@ func ruleCtor(c *RC) *RuleResult {
 		if fn.Pkg.PkgPath != consPath || fn.Recv != "" || !strings.HasPrefix(fn.Name, "New") {
 			continue
 		}
-		info := fn.Pkg.TypesInfo
 		n++
 		for _, p := range fn.Params {
 			if p.Name() == "_" || p.Name() == "" {
 				continue
 			}
 			r.Sites++
-			// destination fields of the parameter
-			dests := map[string]bool{}
-			used := false
-			ast.Inspect(fn.Decl.Body, func(nd ast.Node) bool {
-				switch x := nd.(type) {
-				case *ast.Ident:
-					if info.Uses[x] == p {
-						used = true
-					}
-				case *ast.KeyValueExpr:
-					if k, ok := x.Key.(*ast.Ident); ok && mentions(info, x.Value, p) {
-						dests[k.Name] = true
-					}
-				case *ast.AssignStmt:
-					for i, l := range x.Lhs {
-						if i < len(x.Rhs) && mentions(info, x.Rhs[i], p) {
-							if sel, ok := l.(*ast.SelectorExpr); ok {
-								dests[sel.Sel.Name] = true
-							}
-						}
-					}
-				case *ast.CallExpr:
-					// copy(dst.field[:], param)
-					if id, ok := x.Fun.(*ast.Ident); ok && id.Name == "copy" && len(x.Args) == 2 && mentions(info, x.Args[1], p) {
-						ast.Inspect(x.Args[0], func(m ast.Node) bool {
-							if sel, ok := m.(*ast.SelectorExpr); ok {
-								dests[sel.Sel.Name] = true
-							}
-							return true
-						})
-					}
-				}
-				return true
-			})
+			// destination fields of the parameter (followed into the helpers it is handed to)
+			dests, used := c.ctorDests(fn, p, 0)
 			want := ctorRoles[fn.Name][p.Name()]
 			// the role is met if the destination is the exported field of that name or a field the accessor returns
 			if want != "" && !dests[want] {
@@ -1049,20 +1071,34 @@ func mentions(info *types.Info, e ast.Expr, v *types.Var) bool {
 
 // P-SIG (crypto, merkle)
 func ruleSig(c *RC) *RuleResult {
-	r := &RuleResult{Rule: "P-SIG", Kind: "PROV", Doc: "ECDSA Sign and Verify hash the message with the same function and use the receiver's key; Merkle parents are Hash256(left ‖ right) in that order"}
+	r := &RuleResult{Rule: "P-SIG", Kind: "PROV", Doc: "ECDSA Sign and Verify hash the message with the same function and use the receiver's key; every Merkle node hash computed by a digest depends on the hashes of both children 2i and 2i+1 of the level below"}
 	sign := c.Prog.ByName["internal/crypto:ECDSAPriv.Sign"]
 	ver := c.Prog.ByName["internal/crypto:ECDSAPub.Verify"]
 	r.Sites++
 	if sign == nil || ver == nil {
 		r.unresolved("ECDSAPriv.Sign / ECDSAPub.Verify")
 	} else {
-		hs := func(fn *FuncInfo) []string {
+		// the digest computations a function performs, helpers of package crypto expanded to what they do themselves
+		// (so that a pass-through helper is nothing and a double hash is two)
+		var expand func(fn *FuncInfo, depth int) []string
+		expand = func(fn *FuncInfo, depth int) []string {
 			var out []string
 			for _, s := range c.A.FnSites[fn] {
-				if s.Kind == "call" && (strings.Contains(s.Callee, "sha256") || strings.Contains(s.Callee, "Hash256") || strings.Contains(s.Callee, "Hash160") || strings.Contains(s.Callee, "sha512") || strings.Contains(s.Callee, "ripemd")) {
+				if s.Kind != "call" {
+					continue
+				}
+				if s.Target != nil && s.Target != fn && depth < 4 && strings.HasSuffix(s.Target.Pkg.PkgPath, "/internal/crypto") {
+					out = append(out, expand(s.Target, depth+1)...)
+					continue
+				}
+				if strings.Contains(s.Callee, "sha256") || strings.Contains(s.Callee, "Hash256") || strings.Contains(s.Callee, "Hash160") || strings.Contains(s.Callee, "sha512") || strings.Contains(s.Callee, "ripemd") {
 					out = append(out, s.Callee)
 				}
 			}
+			return out
+		}
+		hs := func(fn *FuncInfo) []string {
+			out := expand(fn, 0)
 			sort.Strings(out)
 			return out
 		}
@@ -1090,84 +1126,8 @@ func ruleSig(c *RC) *RuleResult {
 			r.fail("ECDSAPub.Verify/key", c.Prog.Pos(ver.Decl), "Verify does not use the receiver's key")
 		}
 	}
-	// merkle
-	bt := c.merkleBuilder()
-	r.Sites++
-	if bt == nil {
-		r.unresolved("merkle.buildTree")
-		return r
-	}
-	// read through locals and single-caller helpers: the one Hash256 input is append(P.Left.Hash[:], P.Right.Hash[:]) for
-	// a parent P = parents[i]; P.Left = &leaves[2i]; P.Right = &leaves[2i+1] (or P.Left for the odd last one); P.Hash is
-	// assigned
-	nf := c.collectNorm(bt, "Hash256")
-	var order []string
-	good := false
-	why := ""
-	ins := nf.calls["Hash256"]
-	reIn := regexp.MustCompile(`^append\((.+)\.Left\.Hash\[:\],(.+)\.Right\.Hash\[:\]\)$`)
-	switch {
-	case len(ins) != 1:
-		why = fmt.Sprintf("%d hash computations in the tree builder", len(ins))
-	default:
-		order = append(order, "Hash256("+ins[0]+")")
-		m := reIn.FindStringSubmatch(ins[0])
-		if m == nil || m[1] != m[2] {
-			why = "the hash input is not the parent's left hash followed by its right hash"
-			break
-		}
-		P := m[1]
-		reP := regexp.MustCompile(`^(.+)\[([A-Za-z_][A-Za-z_0-9]*)\]$`)
-		pm := reP.FindStringSubmatch(P)
-		if pm == nil {
-			why = "the parent is not an element indexed by the loop variable"
-			break
-		}
-		iv := pm[2]
-		leftOK, rightPair, rightOther, hashSet := false, false, "", false
-		src := ""
-		for _, as := range nf.assigns {
-			switch as[0] {
-			case P + ".Left":
-				order = append(order, "Left="+as[1])
-				if mm := regexp.MustCompile(`^&(.+)\[2\*` + iv + `\]$`).FindStringSubmatch(as[1]); mm != nil {
-					leftOK, src = true, mm[1]
-				}
-			case P + ".Hash":
-				hashSet = true
-			}
-		}
-		for _, as := range nf.assigns {
-			if as[0] != P+".Right" {
-				continue
-			}
-			order = append(order, "Right="+as[1])
-			switch as[1] {
-			case "&" + src + "[2*" + iv + "+1]":
-				rightPair = true
-			case P + ".Left":
-			default:
-				rightOther = as[1]
-			}
-		}
-		switch {
-		case !leftOK:
-			why = "the left child is not leaf 2i"
-		case !rightPair:
-			why = "the right child is never leaf 2i+1"
-		case rightOther != "":
-			why = "the right child may be " + rightOther
-		case !hashSet:
-			why = "the computed hash is not stored in the parent"
-		default:
-			good = true
-		}
-	}
-	if good {
-		r.ok("parent = Hash256(left ‖ right): " + strings.Join(order, "; "))
-	} else {
-		r.fail("merkle.buildTree/order", c.Prog.Pos(bt.Decl), "parent hash input is not left‖right over leaves 2i, 2i+1: "+why+" ["+strings.Join(order, "; ")+"]")
-	}
+	// merkle: every node hash computed by a digest depends on the hashes of both children (merkledeps.go)
+	c.ruleMerkleDeps(r)
 	return r
 }
 
@@ -1443,4 +1403,101 @@ func ruleTypedNil(c *RC) *RuleResult {
 		r.ok("nothing to check")
 	}
 	return r
+}
+
+// decoderScope: the bodies a decoder's behaviour is written in: its cluster's functions and the initialisers of the
+// package-level variables they mention (a table of constructors).
+func (c *RC) decoderScope(md *FuncInfo) []ast.Node {
+	var out []ast.Node
+	seen := map[types.Object]bool{}
+	for _, mem := range c.clusterFns(md) {
+		out = append(out, mem.Decl.Body)
+		info := mem.Pkg.TypesInfo
+		ast.Inspect(mem.Decl.Body, func(n ast.Node) bool {
+			id, ok := n.(*ast.Ident)
+			if !ok {
+				return true
+			}
+			v, ok := info.Uses[id].(*types.Var)
+			if !ok || v.Pkg() == nil || v.Parent() != v.Pkg().Scope() || seen[v] {
+				return true
+			}
+			seen[v] = true
+			for _, f := range mem.Pkg.Syntax {
+				for _, d := range f.Decls {
+					gd, ok := d.(*ast.GenDecl)
+					if !ok {
+						continue
+					}
+					for _, sp := range gd.Specs {
+						vs, ok := sp.(*ast.ValueSpec)
+						if !ok {
+							continue
+						}
+						for i, nm := range vs.Names {
+							if info.Defs[nm] == v && i < len(vs.Values) {
+								out = append(out, vs.Values[i])
+							}
+						}
+					}
+				}
+			}
+			return true
+		})
+	}
+	return out
+}
+
+// ctorDests: the fields a constructor parameter ends up in — keys of composite literals, assigned fields, copy targets —
+// in the constructor itself and in the module functions the parameter is handed to.
+func (c *RC) ctorDests(fn *FuncInfo, p *types.Var, depth int) (map[string]bool, bool) {
+	info := fn.Pkg.TypesInfo
+	dests := map[string]bool{}
+	used := false
+	ast.Inspect(fn.Decl.Body, func(nd ast.Node) bool {
+		switch x := nd.(type) {
+		case *ast.Ident:
+			if info.Uses[x] == p {
+				used = true
+			}
+		case *ast.KeyValueExpr:
+			if k, ok := x.Key.(*ast.Ident); ok && mentions(info, x.Value, p) {
+				dests[k.Name] = true
+			}
+		case *ast.AssignStmt:
+			for i, l := range x.Lhs {
+				if i < len(x.Rhs) && mentions(info, x.Rhs[i], p) {
+					if sel, ok := l.(*ast.SelectorExpr); ok {
+						dests[sel.Sel.Name] = true
+					}
+				}
+			}
+		case *ast.CallExpr:
+			// copy(dst.field[:], param)
+			if id, ok := x.Fun.(*ast.Ident); ok && id.Name == "copy" && len(x.Args) == 2 && mentions(info, x.Args[1], p) {
+				ast.Inspect(x.Args[0], func(m ast.Node) bool {
+					if sel, ok := m.(*ast.SelectorExpr); ok {
+						dests[sel.Sel.Name] = true
+					}
+					return true
+				})
+			}
+			if depth < 3 {
+				if fo, _ := typeutil.Callee(info, x).(*types.Func); fo != nil {
+					if t := c.Prog.Funcs[fo.Origin()]; t != nil && t != fn && t.Decl != nil && t.Decl.Body != nil && strings.HasPrefix(t.Pkg.PkgPath, modPath+"/internal/") {
+						for j, a := range x.Args {
+							if j < len(t.Params) && mentions(info, a, p) {
+								sub, _ := c.ctorDests(t, t.Params[j], depth+1)
+								for d := range sub {
+									dests[d] = true
+								}
+							}
+						}
+					}
+				}
+			}
+		}
+		return true
+	})
+	return dests, used
 }
